@@ -159,8 +159,28 @@ let handle_iterpv line args obs =
     end
   | _ -> failwith ("bad iterpv: " ^ short line)
 
+(* ucitrace engine cmds... => R I B ...   observable trace of the real driver, checked by the trace
+   acceptor of the driver transition system (Model/Driver.v obs_ok / obs_counts_ok) *)
+let handle_ucitrace line args obs =
+  match args with
+  | _engine :: cmds ->
+    let tf c = (c = '1') in
+    let script = List.map (fun t ->
+        match t with
+        | "r" -> CIsReady | "n" -> CNewGame | "p" -> CPosition true | "s" -> CStop | "q" -> CQuit | "j" -> CJunk | "G" -> CGoBook
+        | _ when String.length t = 6 && String.sub t 0 2 = "g:" ->
+          CGo { g_inf = tf t.[2]; g_mt = tf t.[3]; g_lim = tf t.[4]; g_clk = tf t.[5] }
+        | _ -> failwith ("bad trace cmd " ^ t)) cmds in
+    let o = List.filter_map (fun t -> match t with "R" -> Some OReady0 | "I" -> Some OInfo0 | "B" -> Some OBest0 | _ -> None) (ws obs) in
+    bump "ucitrace";
+    if List.exists (fun t -> t = "B") (ws obs) then bump "ucitrace/with-bestmove";
+    if not (obs_counts_ok script o) then report_spec ~key:"prop=C16" line "trace rejected by the count form of the driver model (readyok per isready, at most one bestmove per go)"
+    else if not (obs_ok script o) then report_mismatch line "trace not accepted by the driver model (obs_ok)"
+  | _ -> failwith "bad ucitrace"
+
 let handle (line : string) (kind : string) (args : string list) (obs : string) : unit =
   match kind with
+  | "ucitrace" -> handle_ucitrace line args obs
   | "iterpv" -> handle_iterpv line args obs
   | "ucigo" -> handle_ucigo line args obs
   | _ -> failwith ("unknown case kind: " ^ line)
